@@ -87,21 +87,24 @@ func (l SymLC) VerifyNonMembership(ctx sdk.Context, clientID string, height expo
 }
 
 func (l SymLC) Status(ctx sdk.Context, clientID string) exported.Status {
-	verif.LogCall(l.n("Status"), clientID)
-	return exported.Status(verif.String(l.n("lc.status")))
+	st := verif.String(l.n("lc.status"))
+	verif.LogCall(l.n("Status"), clientID, st)
+	return exported.Status(st)
 }
 
 func (l SymLC) LatestHeight(ctx sdk.Context, clientID string) exported.Height {
-	verif.LogCall(l.n("LatestHeight"), clientID)
-	return clienttypes.NewHeight(verif.Uint64(l.n("lc.latest.rev")), verif.Uint64(l.n("lc.latest.h")))
+	rev, h := verif.Uint64(l.n("lc.latest.rev")), verif.Uint64(l.n("lc.latest.h"))
+	verif.LogCall(l.n("LatestHeight"), clientID, rev, h)
+	return clienttypes.NewHeight(rev, h)
 }
 
 func (l SymLC) TimestampAtHeight(ctx sdk.Context, clientID string, height exported.Height) (uint64, error) {
-	verif.LogCall(l.n("TimestampAtHeight"), clientID, height.GetRevisionNumber(), height.GetRevisionHeight())
-	if !verif.Bool(l.n("lc.ts.ok")) {
+	ok, ts := verif.Bool(l.n("lc.ts.ok")), verif.Uint64(l.n("lc.ts"))
+	verif.LogCall(l.n("TimestampAtHeight"), clientID, height.GetRevisionNumber(), height.GetRevisionHeight(), ts, ok)
+	if !ok {
 		return 0, errLC
 	}
-	return verif.Uint64(l.n("lc.ts")), nil
+	return ts, nil
 }
 
 func (l SymLC) RecoverClient(ctx sdk.Context, clientID, substituteClientID string) error {
